@@ -195,6 +195,17 @@ def rule_Q5(ctx, rid='Q5'):
                         if tx == 'equal_weight':
                             eq = tr
                 continue
+            if n.kind == 'stmt' and isinstance(n.ast, (ast.Assign, ast.AugAssign)):
+                # an element store / in-place update of a name that holds the multiplicities
+                tg = n.ast.targets[0] if isinstance(n.ast, ast.Assign) else n.ast.target
+                base = tg
+                while isinstance(base, ast.Subscript):
+                    base = base.value
+                if isinstance(base, ast.Name) and (tg is not base or
+                                                   isinstance(n.ast, ast.AugAssign)) and \
+                        env.get(base.id) in (M, F, B) :
+                    env[base.id] = ('MUT', env[base.id], unparse(n.ast)[:50])
+                    continue
             if n.kind != 'stmt' or not isinstance(n.ast, ast.Assign) or \
                     len(n.ast.targets) != 1 or not isinstance(n.ast.targets[0], ast.Name):
                 continue
@@ -207,6 +218,10 @@ def rule_Q5(ctx, rid='Q5'):
             elif isinstance(v, ast.Subscript) and isinstance(v.value, ast.Name) and \
                     v.value.id == tgt and eq:
                 s = evl.ev(v.slice, env)
+                mult = s[1] if isinstance(s, tuple) and s[0] == 'IDX' else s
+            elif isinstance(v, ast.Call) and dotted(v.func) == 'np.take' and len(v.args) >= 2 \
+                    and isinstance(v.args[0], ast.Name) and v.args[0].id == tgt and eq:
+                s = evl.ev(v.args[1], env)
                 mult = s[1] if isinstance(s, tuple) and s[0] == 'IDX' else s
             if mult is not None and eq:
                 key = (nid, tgt)
@@ -232,6 +247,11 @@ def rule_Q5(ctx, rid='Q5'):
                 elif isinstance(mult, tuple) and mult[0] == 'DET':
                     verdict = (False, 'multiplicity is %s(r): deterministic rounding, its '
                                'expectation is not r' % mult[1])
+                elif isinstance(mult, tuple) and mult[0] == 'MUT':
+                    verdict = (False, 'the multiplicities are modified after the stochastic '
+                               'rounding (`%s`): on that path a row\'s multiplicity is no longer '
+                               'floor(r) or floor(r)+1 with expectation r (the draw is '
+                               'conditioned / overridden)' % mult[2])
                 elif mult == R:
                     verdict = (False, 'the real-valued r is used as a repeat count (truncated '
                                'by NumPy without stochastic rounding)')
